@@ -9,8 +9,17 @@ vars == <<l, st, fees>>
 
 StOf(o) == [init |-> o.init, future |-> o.future, start |-> o.start, stop |-> o.stop, height |-> o.height,
             res |-> o.res, S |-> o.S, fee |-> o.fee, bal |-> o.bal,
-            feeAll |-> o.feeAll, burned |-> o.burned, col |-> o.col, circ |-> o.circ]
+            feeAll |-> o.feeAll, burned |-> o.burned, col |-> o.col, circ |-> o.circ, tog |-> o.tog]
 
+\* a paused operation is refused on every entry path (direct message, cw20 hook), and only its own switch pauses it; the
+\* switches only move by "settog"
+TogChecks(ev, t) ==
+  LET mine == CASE ev.ev = "provide" -> st.tog.d [] ev.ev \in {"withdraw", "wdirect"} -> st.tog.w
+                [] ev.ev = "swap" -> st.tog.s [] OTHER -> TRUE IN
+  << <<"C17.accepted-only-while-its-switch-is-on", ev.res = "ok" => mine>>,
+     <<"C17.refused-as-disabled-only-by-its-own-switch",
+        (ev.ev \in {"provide", "withdraw", "swap"} /\ ev.res # "ok" /\ ev.disabled) => ~mine>>,
+     <<"C17.switches-only-move-by-their-update", ev.ev = "settog" \/ t.tog = st.tog>> >>
 HarnessAmp(ev) == << <<"TRACE.harness-amp=AmpAt(config,height)", ev.args.amp = AmpNow(st)>> >>
 
 EvChecks(ev, t) ==
@@ -26,7 +35,7 @@ EvChecks(ev, t) ==
                         t.feeAll[ev.args.j] -- st.feeAll[ev.args.j] = MulFloor(GrossOf(ev.args.out), fees.p)>> >>
                \o SpreadChecks(ev.args.offer, ev.args.out, ev.args.ms, ev.args.bp)
           ELSE Untouched(st, t)
-               \o (IF ev.args.wrong_path THEN <<>> ELSE SpreadInsideChecks(ev.args.offer, ev.args.sim, ev.args.ms, ev.args.bp))
+               \o (IF ev.args.wrong_path \/ ~st.tog.s THEN <<>> ELSE SpreadInsideChecks(ev.args.offer, ev.args.sim, ev.args.ms, ev.args.bp))
      [] ev.ev = "provide" ->
           IF ev.res = "ok" THEN ProvideChecks(st, ev.args.d, ev.args.curve, ev.args.minted, ev.args.slip # "none", ev.args.slip, t) \o HarnessAmp(ev)
           ELSE Untouched(st, t)
@@ -38,8 +47,14 @@ EvChecks(ev, t) ==
           \o << <<"C04.withdraw.only-against-LP-tokens", ev.res # "ok">> >>
      [] ev.ev = "collect" ->
           IF ev.res = "ok" THEN CollectChecks(st, t) \o CollectLedgerChecks(st, t) ELSE Untouched(st, t)
+     \* the three pause switches (C17)
+     [] ev.ev = "settog" ->
+          IF ev.res = "ok"
+          THEN << <<"C16.settog.owner-only", ev.actor = "owner">>,
+                  <<"C17.obs.toggles", t.tog = [d |-> ev.args.d, w |-> ev.args.w, s |-> ev.args.s]>> >> \o Untouched(st, t)
+          ELSE Untouched(st, t) \o << <<"C17.settog.by-owner-rejected", ev.actor # "owner">>, <<"C17.rejected.switches-unchanged", t.tog = st.tog>> >>
      [] OTHER -> << <<"TRACE.unknown-event", FALSE>> >>)
-  \o StateChecks(t) \o LedgerChecks(st, t)
+  \o StateChecks(t) \o LedgerChecks(st, t) \o TogChecks(ev, t)
   \o (IF ev.ev = "tick" THEN <<>> ELSE << <<"TRACE.height-only-moves-on-tick", t.height = st.height>> >>)
 
 Report(ev, bad) ==
